@@ -88,11 +88,14 @@ CLAIMED = {
              "hence by C04_output_is_union its export, are unchanged -- for every capture), C03_reading_total (without -c no packet, however damaged, can make the reading "
              "phase fail), C03_no_keys_no_output / C03_missing_secrets / C03_unknown_suite (a flow without usable keys switches decryption off instead of failing and exports "
              "no application data), C03_failed_record (a record that does not decrypt is dropped: never exported as it is, no invented bytes, cipher state untouched), "
-             "C03_other_records_total; truncation gives a prefix by C08_tls. Closed under the global context. NOT proved: run-level totality of the decrypt phase, the prefix "
-             "claim for a packet lost in the middle, and the QUIC side: decided by the fault enumeration (eleven fault kinds on TLS and QUIC victims among healthy bystanders) "
-             "with byte-exact correspondence of the model including crash outcomes. One open finding (QUIC loss: subsequence, not prefix).",
+             "C03_other_records_total; QUIC: C03_quic_datagram_total (whatever a UDP datagram contains, a QUIC session handles it without raising, and the loop over a coalesced "
+             "datagram terminates), C03_run_reading_total (the reading phase of the whole run -- TCP, UDP/QUIC, anything else, key-log blocks -- never fails without -c; one named "
+             "hypothesis: HKDF-Expand does not refuse 12/16/32-byte outputs), C03_quic_isolation (a datagram of another flow leaves a flow's QUIC sessions unchanged); truncation "
+             "gives a prefix by C08_tls / C08_quic. Closed under the global context. NOT proved: totality of the TLS decrypt phase that follows the reading phase and the prefix "
+             "claim for a packet lost in the middle: decided by the fault enumeration (twelve fault kinds, crafted Initial datagrams included, on TLS and QUIC victims among "
+             "healthy bystanders) with byte-exact correspondence of the model including crash outcomes. One open finding (QUIC loss: subsequence, not prefix).",
         note="Trusted: Coq kernel; models tied by byte-exact correspondence on faulty captures; faults hit payloads and key logs, not the container or L2-L4 headers.",
-        technique="Coq proof (flow projection, per-record case analysis) + fault enumeration with bystander comparison",
+        technique="Coq proof (flow projection, per-record case analysis, totality of the QUIC path with a termination measure) + fault enumeration with bystander comparison",
         design="3 C03"),
     "C04": dict(
         text="Proof: Coq theorems C04_sessions_as_if_alone (for every capture, every interleaving and every packet q: the "
